@@ -211,7 +211,8 @@ class C06(Prop):
                 res.count("write-half-skipped-sample-prints-as-null")
             elif sc.get("no_null_item"):
                 res.count("write-half-skipped-no-null-item")
-            elif sc["policy_null"] == "strict" and sc["textcol"] is None:
+            elif sc["policy_null"] == "strict":
+                numcols = [j for j in range(nc) if j != sc["textcol"]]        # a text column travels along, untouched
                 if sc.get("touch_then_nan"):
                     # the data table is looked at, then a sample is set to NaN in place, then the file is written
                     try:
@@ -237,13 +238,13 @@ class C06(Prop):
                 if len(bc) != nc or any(len(np.asarray(c.data)) != nr for c in bc):
                     res.violate("C06.write-cycle", "shape changed over write -> read: %d curves of lengths %r" % (len(bc), [len(c.data) for c in bc]))
                     return res
-                textual = [j for j in range(nc) if np.asarray(bc[j].data).dtype.kind not in "fiu"]
+                textual = [j for j in numcols if np.asarray(bc[j].data).dtype.kind not in "fiu"]
                 if textual:
                     res.violate("C06.write-cycle", "numeric curve #%d came back as %s after write(%r) -> read: %r" % (
                         textual[0], np.asarray(bc[textual[0]].data).dtype, sc["wkw"], np.asarray(bc[textual[0]].data).tolist()[:4]))
                     return res
-                nan_before = sorted((i, j) for j in range(nc) for i in range(nr) if math.isnan(float(np.asarray(curves[j].data)[i])))
-                nan_after = sorted((i, j) for j in range(nc) for i in range(nr) if math.isnan(float(np.asarray(bc[j].data)[i])))
+                nan_before = sorted((i, j) for j in numcols for i in range(nr) if math.isnan(float(np.asarray(curves[j].data)[i])))
+                nan_after = sorted((i, j) for j in numcols for i in range(nr) if math.isnan(float(np.asarray(bc[j].data)[i])))
                 if nan_before != nan_after:
                     res.violate("C06.write-cycle", "NaN positions %r became %r after write(%r) -> read (NULL %r)" % (
                         nan_before[:6], nan_after[:6], sc["wkw"], sc["null_spelling"]))
